@@ -173,6 +173,7 @@ func zipvecMain(args []string) int {
 	in := fs.String("in", "", "TLC log")
 	out := fs.String("out", "", "report")
 	seed := fs.Int64("seed", 1, "seed")
+	noODF := fs.Bool("noodf", false, "skip the mimetype-first archives")
 	fs.Parse(args)
 	rep := newReport("zipvec")
 	rng := rand.New(rand.NewSource(*seed))
@@ -289,6 +290,9 @@ func zipvecMain(args []string) int {
 		"application/vnd.oasis.opendocument.formula", "application/vnd.oasis.opendocument.chart", "application/vnd.sun.xml.calc"}
 	var odfN int64
 	for _, t := range odf {
+		if *noODF {
+			break
+		}
 		for _, rest := range [][]zipEntry{{}, {{"META-INF/manifest.xml", 40, 0}, {"content.xml", 300, 0}}, {{"META-INF/MANIFEST.MF", 5, 0}}, {{"word/document.xml", 5, 0}, {"[Content_Types].xml", 5, 0}},
 			{{"content.xml", 300, 0}, {"META-INF/MANIFEST.MF", 60, 0}}, {{"content.xml", 120, 0}, {"styles.xml", 80, 0}, {"classes.dex", 60, 0}}, {{"AndroidManifest.xml", 20, 0}}} {
 			for _, desc := range []bool{false, true} { // "with and without data descriptors": a streaming writer leaves the sizes of the stored entry to the descriptor
